@@ -9,11 +9,15 @@
     so its result does not depend on the order.
 
     The two regular expressions are matched with Go's regexp (RE2, leftmost-first,
-    UNANCHORED FindStringSubmatch).  They are modelled by hand-written matchers
-    [uci_find] / [san_find] that try every start position from the left and, at one start
-    position, explore the optional groups greedily with backtracking (= the Perl-like
-    preference order that RE2's leftmost-first semantics guarantees).  Both were validated
-    against Go's regexp package (see the final report / regex vectors).
+    FindStringSubmatch).  Since the repair "move strings are matched as a whole" both are
+    ANCHORED ('^...$'; Go's '$' without flag m matches at the end of the text only, a
+    trailing newline does not match), so a match starts at position 0 and must consume the
+    entire string.  They are modelled by hand-written matchers [uci_find] / [san_find] that
+    explore the optional groups greedily with backtracking and the alternatives in the order
+    of the regex (= the Perl-like preference order that RE2's leftmost-first semantics
+    guarantees); every continuation ends in the end-of-text test.  Both were validated
+    against Go's regexp package (exhaustively over a representative alphabet up to a length
+    bound, and on random longer strings; see the final report).
     No proofs in this file. *)
 From Coq Require Import NArith List Bool.
 From FG Require Import Geom Rules FenSpec.
@@ -43,41 +47,39 @@ Definition string_uci (m : mv) : str :=
 (* strings.ToUpper on one byte *)
 Definition to_upper (c : N) : N := if (97 <=? c) && (c <=? 122) then c - 32 else c.
 
-(** ** UCI:  regexUciMove = '([a-h][1-8][a-h][1-8])([NBRQnbrq])?'   (movegen.go:458) *)
-(* a match starting exactly here: group 1 (four characters) and the optional group 2 (greedy:
-   taken whenever the next character is in the class; nothing follows, so no backtracking) *)
+(** ** UCI:  regexUciMove = '^([a-h][1-8][a-h][1-8])([NBRQnbrq])?$'   (movegen.go:462) *)
+(* a match of the whole string: group 1 (four characters), the optional group 2 (greedy: taken
+   when the next character is in the class) and then the end of the text.  If group 2 was
+   taken and the text does not end there, backtracking into 'group 2 absent' needs the text
+   to end after group 1, which it does not: no match. *)
 Definition uci_at (s : str) : option (str * option N) :=
   match s with
   | a :: b :: c :: d :: r =>
       if is_file_ch a && is_rank_ch b && is_file_ch c && is_rank_ch d then
-        Some ([a; b; c; d],
-              match r with
-              | e :: _ => if is_uciprom_ch e then Some e else None
-              | [] => None
-              end)
+        match r with
+        | [] => Some ([a; b; c; d], None)                                   (* group 2 absent, $ *)
+        | [e] => if is_uciprom_ch e then Some ([a; b; c; d], Some e) else None   (* group 2, $ *)
+        | _ :: _ :: _ => None                                                (* $ fails *)
+        end
       else None
   | _ => None
   end.
-(* unanchored: leftmost start position at which a match exists *)
-Fixpoint uci_find (s : str) : option (str * option N) :=
-  match uci_at s with
-  | Some r => Some r
-  | None => match s with [] => None | _ :: t => uci_find t end
-  end.
+(* '^': the only start position is 0 *)
+Definition uci_find (s : str) : option (str * option N) := uci_at s.
 
-(* movegen.go:466-491 *)
+(* movegen.go:470-495 *)
 Definition from_uci (p : pos) (s : str) : option mv :=
-  match uci_find s with                                       (* :467 FindStringSubmatch *)
-  | None => None                                              (* :468-470 *)
+  match uci_find s with                                       (* :471 FindStringSubmatch *)
+  | None => None                                              (* :472-474 *)
   | Some (move_part, prom) =>
-      (* :473-479 len(matches) is always 3; an absent group is ''; ToUpper *)
+      (* :477-483 len(matches) is always 3; an absent group is ''; ToUpper *)
       let want := move_part ++ match prom with Some e => [to_upper e] | None => [] end in
-      (* :482-488 first legal move whose StringUci equals the wanted string *)
+      (* :486-492 first legal move whose StringUci equals the wanted string *)
       find (fun m => str_eqb (string_uci m) want) (legal p)
   end.
 
 (** ** SAN:  regexSanMove =
-    '([NBRQK])?([a-h])?([1-8])?x?([a-h][1-8]|O-O-O|O-O)(=?([NBRQ]))?([!?+#]* )?'  (movegen.go:493; a blank inserted before the last ')' to keep this comment well-formed) *)
+    '^([NBRQK])?([a-h])?([1-8])?x?([a-h][1-8]|O-O-O|O-O)(=?([NBRQ]))?([!?+#]* )?$'  (movegen.go:497; a blank inserted before the last ')' to keep this comment well-formed) *)
 Inductive san_target := TSq (f r : N) (* the two characters *) | TOO | TOOO.
 Record san_fields := mk_sf {
   sf_piece : option N;     (* group 1 *)
@@ -85,7 +87,7 @@ Record san_fields := mk_sf {
   sf_rank  : option N;     (* group 3 *)
   sf_target : san_target;  (* group 4 *)
   sf_prom  : option N      (* group 6 *)
-}.                         (* group 7 (decorations) is ignored by the Go code (:513) *)
+}.                         (* group 7 (decorations) is ignored by the Go code (:517) *)
 
 Fixpoint strip_prefix (pat s : str) : option str :=
   match pat with
@@ -96,7 +98,10 @@ Fixpoint strip_prefix (pat s : str) : option str :=
                 end
   end.
 
-(* group 4, alternatives in the order of the regex: [a-h][1-8] | O-O-O | O-O *)
+(* first alternative that leads to an overall match *)
+Definition or_else {A} (a b : option A) : option A := match a with Some x => Some x | None => b end.
+
+(* [a-h][1-8] *)
 Definition san_sq_alt (s : str) : option (san_target * str) :=
   match s with
   | a :: r1 => if is_file_ch a then
@@ -107,31 +112,31 @@ Definition san_sq_alt (s : str) : option (san_target * str) :=
                else None
   | [] => None
   end.
-Definition san_g4 (s : str) : option (san_target * str) :=
-  match san_sq_alt s with
-  | Some x => Some x
-  | None => match strip_prefix [79;45;79;45;79] s with
-            | Some r => Some (TOOO, r)
-            | None => match strip_prefix [79;45;79] s with
-                      | Some r => Some (TOO, r)
-                      | None => None
-                      end
-            end
-  end.
+(* group 4, alternatives in the order of the regex: [a-h][1-8] | O-O-O | O-O; an alternative
+   is final only if the continuation [k] (the rest of the regex up to '$') succeeds after it *)
+Definition san_g4 {A} (s : str) (k : san_target -> str -> option A) : option A :=
+  or_else (match san_sq_alt s with Some (tg, r) => k tg r | None => None end)
+ (or_else (match strip_prefix [79;45;79;45;79] s with Some r => k TOOO r | None => None end)
+          (match strip_prefix [79;45;79] s with Some r => k TOO r | None => None end)).
 
-(* (=?([NBRQ]))? : greedy '=' then a letter; if '=' is not followed by a letter the '=?'
-   backtracks to empty and [NBRQ] is tried on '=' itself, which fails: group absent.
-   The rest, ([!?+#]* )?, always succeeds (possibly empty) and is not used. *)
-Definition san_g6 (s : str) : option N :=
-  match s with
-  | c :: r =>
-      if c =? 61 then match r with
-                      | e :: _ => if is_prom_ch e then Some e else None
-                      | [] => None
-                      end
-      else if is_prom_ch c then Some c else None
-  | [] => None
-  end.
+(* ([!?+#]* )?$ : the greedy star takes every decoration character; then the text must end.
+   Giving characters back cannot help ('$' fails earlier as well), so: a match iff the whole
+   rest consists of decoration characters.  The group is not used by the Go code. *)
+Definition is_decor_ch (c : N) : bool := (c =? 33) || (c =? 63) || (c =? 43) || (c =? 35).   (* [!?+#] *)
+Definition deco_end (s : str) : bool := forallb is_decor_ch s.
+
+(* (=?([NBRQ]))? followed by the decorations and '$'.  Preference order: the group present
+   with '=' ; present with '=?' empty ; absent.  Result: group 6. *)
+Definition san_tail (s : str) : option (option N) :=
+  or_else (match s with
+           | c :: e :: r => if (c =? 61) && is_prom_ch e && deco_end r then Some (Some e) else None
+           | _ => None
+           end)
+ (or_else (match s with
+           | e :: r => if is_prom_ch e && deco_end r then Some (Some e) else None
+           | [] => None
+           end)
+          (if deco_end s then Some None else None)).
 
 (* one optional single-character group: greedy, with backtracking into 'absent' when the
    continuation fails *)
@@ -145,23 +150,20 @@ Definition opt_eat {A} (cls : N -> bool) (s : str) (k : option N -> str -> optio
   | [] => k None s
   end.
 
-(* a match starting exactly here.  Everything after group 4 can match the empty string,
-   so the first way (in preference order) to get through group 4 is the match. *)
+(* a match of the whole string starting at position 0 *)
 Definition san_at (s : str) : option san_fields :=
   opt_eat is_piece_ch s (fun g1 s1 =>
   opt_eat is_file_ch s1 (fun g2 s2 =>
   opt_eat is_rank_ch s2 (fun g3 s3 =>
   opt_eat is_x_ch s3 (fun _ s4 =>
-    match san_g4 s4 with
-    | Some (tg, s5) => Some (mk_sf g1 g2 g3 tg (san_g6 s5))
+  san_g4 s4 (fun tg s5 =>
+    match san_tail s5 with
+    | Some g6 => Some (mk_sf g1 g2 g3 tg g6)
     | None => None
-    end)))).
+    end))))).
 
-Fixpoint san_find (s : str) : option san_fields :=
-  match san_at s with
-  | Some r => Some r
-  | None => match s with [] => None | _ :: t => san_find t end
-  end.
+(* '^': the only start position is 0 *)
+Definition san_find (s : str) : option san_fields := san_at s.
 
 Definition target_eqb (a b : san_target) : bool :=
   match a, b with
@@ -174,47 +176,60 @@ Definition target_eqb (a b : san_target) : bool :=
 Definition opt_is (o : option N) (c : N) : bool := match o with Some x => x =? c | None => false end.
 Definition is_none (o : option N) : bool := match o with Some _ => false | None => true end.
 
-(* movegen.go:546-577 'normal moves' part of the loop body: does this legal move fit? *)
+(* movegen.go:553-585 'normal moves' part of the loop body: does this legal move fit? *)
 Definition san_normal_fits (p : pos) (f : san_fields) (m : mv) : bool :=
-  (* :547-548 moveTarget == toSquare  (string comparison; 'O-O' never equals a square name) *)
+  (* :554-555 moveTarget == toSquare  (string comparison; 'O-O' never equals a square name) *)
   (match sf_target f with
    | TSq a b => str_eqb (square_string (mto m)) [a; b]
    | _ => false end)
-  (* :551-556  skip if (len(pieceType)==0 || legalPtChar != pieceType) && (len(pieceType)!=0 || legalPt != Pawn) *)
+  (* :558-563  skip if (len(pieceType)==0 || legalPtChar != pieceType) && (len(pieceType)!=0 || legalPt != Pawn) *)
   && (let pt := type_of (piece_at p (mfrom m)) in
       negb ((is_none (sf_piece f) || negb (opt_is (sf_piece f) (pt_char pt)))
             && (negb (is_none (sf_piece f)) || negb (pt =? PAWN))))
-  (* :559 disambiguation file *)
+  (* :566 disambiguation file *)
   && (is_none (sf_file f) || opt_is (sf_file f) (97 + file_of (mfrom m)))
-  (* :564 disambiguation rank *)
+  (* :571 disambiguation rank *)
   && (is_none (sf_rank f) || opt_is (sf_rank f) (49 + rank_of (mfrom m)))
-  (* :569-572  skip if (len(promotion)!=0 && PromotionType().Char() != promotion)
+  (* :576-579  skip if (len(promotion)!=0 && (MoveType()!=Promotion || PromotionType().Char() != promotion))
                      || (len(promotion)==0 && MoveType()==Promotion) *)
-  && negb ((negb (is_none (sf_prom f)) && negb (opt_is (sf_prom f) (pt_char (mprom m))))
+  && negb ((negb (is_none (sf_prom f))
+            && (negb (mtype m =? PROMOTION) || negb (opt_is (sf_prom f) (pt_char (mprom m)))))
            || (is_none (sf_prom f) && (mtype m =? PROMOTION))).
 
-(* movegen.go:520-578 one iteration of the loop: true = movesFound++ *)
-Definition san_fits (p : pos) (f : san_fields) (m : mv) : bool :=
-  if mtype m =? CASTLING then                                   (* :523 *)
-    (* :526-538 *)
+(* text of group 4; strings.HasPrefix *)
+Definition target_str (tg : san_target) : str :=
+  match tg with TSq f r => [f; r] | TOO => [79;45;79] | TOOO => [79;45;79;45;79] end.
+Definition has_prefix (pat s : str) : bool := match strip_prefix pat s with Some _ => true | None => false end.
+
+(* movegen.go:524-586 one iteration of the loop: true = movesFound++.
+   [s] is the whole input string (sanMove). *)
+Definition san_fits (p : pos) (s : str) (f : san_fields) (m : mv) : bool :=
+  if mtype m =? CASTLING then                                   (* :527 *)
+    (* :528-542 castlingString *)
     match (if (mto m =? 6) || (mto m =? 62) then Some TOO
            else if (mto m =? 2) || (mto m =? 58) then Some TOOO else None) with
-    | None => false                                             (* default: log, continue *)
-    | Some cs => if target_eqb cs (sf_target f) then true       (* :539-543 *)
-                 else san_normal_fits p f m                     (* falls through to :546 *)
+    | None => false                                             (* :539-541 default: log, continue *)
+    | Some cs =>
+        (* :544-545  castlingString == toSquare && strings.HasPrefix(sanMove, castlingString) &&
+           len(pieceType)==0 && len(disambFile)==0 && len(disambRank)==0 && len(matches[5])==0.
+           Group 5 is '=?' followed by group 6, which is exactly one character: group 5 is
+           empty iff group 6 is (checked on every probe string), so the model tests group 6. *)
+        target_eqb cs (sf_target f) && has_prefix (target_str cs) s
+        && is_none (sf_piece f) && is_none (sf_file f) && is_none (sf_rank f) && is_none (sf_prom f)
+                                                                (* :550 always continue *)
     end
   else san_normal_fits p f m.
 
-(* movegen.go:501-590.  [moveFromSAN.IsValid()] (:583) is true for every generated move
+(* movegen.go:505-598.  [moveFromSAN.IsValid()] (:590) is true for every generated move
    provided its sort value is ValueNA or within ValueMin..ValueMax; the model has no sort
    values (assumption V-SORT, checked by the harness on every generated move). *)
 Definition from_san (p : pos) (s : str) : option mv :=
-  match san_find s with                                         (* :502 *)
-  | None => None                                                (* :503-505 *)
+  match san_find s with                                         (* :506 *)
+  | None => None                                                (* :507-509 *)
   | Some f =>
-      match filter (san_fits p f) (legal p) with                (* :515-578 *)
-      | [m] => Some m                                           (* :585-586 movesFound == 1 *)
-      | _ => None                                               (* :581-589 *)
+      match filter (san_fits p s f) (legal p) with              (* :519-586 *)
+      | [m] => Some m                                           (* :592-593 movesFound == 1 *)
+      | _ => None                                               (* :588-596 *)
       end
   end.
 
